@@ -130,7 +130,13 @@ def render_operand(p, a, asy, names):
         p._frag.append(call)
         return "$e%d" % (len(p._frag) - 1)
     if a.cap:
-        snaps = "".join(" %s(%d, &%s);" % ("snapo" if p.opt else "snap", sid, names[b]) for sid, b in a.snaps)
+        # a `let mut` name is observed through `&mut` (every other snapshot of it): the binding really is mutable, also
+        # for branches that have already finished
+        def snap_call(sid, b):
+            if p.branches[b].get("mut") and sid % 2 == 0:
+                return " %s(%d, &mut %s);" % ("snapmo" if p.opt else "snapm", sid, names[b])
+            return " %s(%d, &%s);" % ("snapo" if p.opt else "snap", sid, names[b])
+        snaps = "".join(snap_call(sid, b) for sid, b in a.snaps)
         # every third capture is spelled as a labelled block (still a block expression)
         label = "'blk%d: " % a.cap if a.cap % 3 == 0 else ""
         return "%s{ cap(%d);%s %s }" % (label, a.cap, snaps, call)
